@@ -9,6 +9,12 @@ use crate::field_parser::parse_field_value;
 use crate::{CachedStringBlock, DbcHeader, DbcParser, SchemaField, StringBlock, StringRef, Wdb2Header, Wdb5Header};
 use std::sync::Arc;
 
+/// strings in the harness are concrete ASCII; skip the validation loops (they are not constant for CBMC once
+/// the bytes live on the heap)
+fn utf8_stub(b: &[u8]) -> std::result::Result<&str, std::str::Utf8Error> {
+    Ok(unsafe { std::str::from_utf8_unchecked(b) })
+}
+
 fn rs_stub() -> std::hash::RandomState {
     // fixed SipHash keys: HashMap with concrete keys becomes executable
     unsafe { std::mem::transmute::<[u64; 2], std::hash::RandomState>([1, 2]) }
@@ -143,6 +149,7 @@ fn c17b_header_accepted_3_fields() { header_accepts(3, false) }
 #[kani::unwind(12)]
 #[kani::stub(std::fmt::format, vio::fmt_stub)]
 #[kani::stub(std::hash::RandomState::new, rs_stub)]
+#[kani::stub(std::str::from_utf8, utf8_stub)]
 fn c17c_strings_roundtrip_with_duplicate() {
     let mut schema = Schema::new("t");
     schema.add_field(SchemaField::new("s", FieldType::String));
